@@ -246,6 +246,12 @@ func analyzeEquality(ctx context.Context[parser.IEqualityExpressionContext]) {
 	for _, relational := range relExpressions {
 		analyzeRelational(context.Child(ctx, relational))
 	}
+	if len(relExpressions) > 2 {
+		// the compiler evaluates the first two operands only; `a == b == c` would silently
+		// drop c
+		ctx.Diagnostics.Add(diagnostics.Errorf(ctx.AST, "chained comparison is not supported: parenthesize, e.g. (a == b) == c"))
+		return
+	}
 	validateType(
 		ctx,
 		relExpressions,
@@ -259,6 +265,10 @@ func analyzeRelational(ctx context.Context[parser.IRelationalExpressionContext])
 	additives := ctx.AST.AllAdditiveExpression()
 	for _, additive := range additives {
 		analyzeAdditive(context.Child(ctx, additive))
+	}
+	if len(additives) > 2 {
+		ctx.Diagnostics.Add(diagnostics.Errorf(ctx.AST, "chained comparison is not supported: parenthesize, e.g. (a < b) < c"))
+		return
 	}
 	validateType(
 		ctx,
